@@ -541,6 +541,9 @@ def boundary_numbers(n: int):
             out.append(Dd(v))
             if float(v).is_integer() and abs(v) < 1e18:
                 out.append(I(int(v)))
+            if abs(v) < 1e18 and v in (0.5, 1.5, 2.5, -0.5, 0.25, 1, n + 0.5):
+                out.append(Q(repr(float(v))))                  # xs:decimal spelling
+    out += [Q('0.49999999999999999999999'), Q('1.50000000000000000000001'), I(10 ** 400), I(-(10 ** 400))]
     return out
 
 
@@ -614,7 +617,8 @@ def corpus_cases():
     return [Case(e, kind='corpus', note=n) for e, n in exprs]
 
 
-def probe_cases(thorough: bool):
+def probe_cases(thorough: bool, rng=None):
+    rng = rng or random.Random(0)
     cases = corpus_cases()
     add = lambda e, note='': cases.append(Case(e, kind='probe', note=note))
     todo = [(name, seq(items), len(items), items) for name, items in probe_sequences()]
@@ -630,7 +634,8 @@ def probe_cases(thorough: bool):
                 if a[1][0] == 'd' or op in ('eq', 'lt'):
                     add(('filter', s, ('cmp', op, ('pos',), a)), name)
         for a in nums:
-            for b in (nums if thorough else (nums[::2] if n <= 3 else nums[::4])):
+            # quick: every start with a seed-dependent sample of the lengths; thorough: the full square
+            for b in (nums if thorough else rng.sample(nums, min(len(nums), 5 if idx < 10 else 3))):
                 add(F('subsequence', s, a, b), name)
         for p in boundary_ints(n):
             add(F('remove', s, p), name)
@@ -749,10 +754,14 @@ def equivalence_cases(rng, thorough: bool):
         s = seq(items)
         n = len(items)
         nums = boundary_numbers(n)
-        for a in nums:
+        # F&O rounds the position arguments after their promotion to xs:double; the filter form rounds
+        # the literal itself, so the pair is formed where the promotion is exact
+        nums = [x for x in nums if not (x[0] == 'lit' and (
+            (x[1][0] == 'i' and abs(x[1][1]) > 1 << 53) or (x[1][0] == 'q' and abs(x[1][1][0]) > 10 ** 15)))]
+        for a in (nums if thorough else rng.sample(nums, 14)):
             ra = F('round', a)
             pair('subsequence2-as-filter', F('subsequence', s, a), ('filter', s, ('cmp', 'le', ra, pos)))
-            for b in (nums if thorough else rng.sample(nums, 3)):
+            for b in (nums if thorough else rng.sample(nums, 2)):
                 rb = F('round', b)
                 pair('subsequence-as-filter', F('subsequence', s, a, b),
                      ('filter', s, ('and', ('cmp', 'le', ra, pos), ('cmp', 'lt', pos, ('ar', '+', ra, rb)))))
@@ -885,6 +894,8 @@ class Gen:
         rng = self.rng
         if rng.random() < 0.45:
             return self.integer(d, env)
+        if rng.random() < 0.2:
+            return Q(rng.choice(['0.5', '1.5', '2.5', '1.0', '2.25', '0.49', '3.50', '-0.5']))      # xs:decimal positions
         return Dd(rng.choice([0.5, 1.5, 2.5, 1.5, 0.5, 2.5, 3.5, -0.5, 1, 2, 3, 1, 2, 0, 0.25, 1.75, 'inf', '-inf', 'nan',
                               4.5, 2.0, 1.0]))
 
@@ -1056,6 +1067,14 @@ class Gen:
         r = rng.random()
         if d <= 0 or r < 0.2:
             return self.numlit(flavour)
+        if r < 0.12:
+            # aggregates over nodes / untypedAtomic values: atomization and the cast to xs:double
+            src = self.nseq(d - 1, env) if rng.random() < 0.6 else \
+                seq([rng.choice([U('2'), U('1.5'), U(' 3 '), U('1e1'), U('-0'), U('INF'), I(2), Dx(0.5), U('x')])
+                     for _ in range(rng.randint(1, 4))])
+            if rng.random() < 0.5:
+                src = ('filter', src, ('cmp', 'ne', ('dot',), S('x')))
+            return F(rng.choice(['sum', 'avg', 'min', 'max']), src)
         if r < 0.7:
             return F(rng.choice(['sum', 'avg', 'min', 'max', 'sum', 'avg']), self.numseq(d - 1, env, flavour))
         if r < 0.8:
@@ -1278,6 +1297,30 @@ def kernel_probe(run: Run):
         if a != exp:
             run.disagree(Disagreement({'kernel': 'rnd', 'n': n, 'd': d}, impl=exp, model=a, what='kernel-rnd',
                                       site='EPV.Seq.rnd vs float(Fraction)'))
+    lex = ['1', '2.5', '-0', '+1.', '.5', ' 1e1 ', 'INF', '-INF', '+INF', 'NaN', 'inf', 'nan', 'Infinity', '', ' ', 'x', '1_0',
+           '0x10', '1e', 'e1', '1.2.3', '--1', '+-1', '1 2', '1e400', '-1e400', '1e-400', '-1e-400', '0.1', '1E5', '1e+5',
+           '.', '+', '-.5e-3', '\t12\n', '12\u00a0', '9007199254740993', '0.1000000000000000055511151231257827',
+           '123456789012345678901234567890', '1.7976931348623157e308', '1.7976931348623159e308', '4.9e-324', '2.4e-324']
+    for _ in range(run.scale(300, 3000)):
+        k = rng.random()
+        body = ''.join(rng.choice('0123456789') for _ in range(rng.randint(0, 6)))
+        if k < 0.5:
+            body += '.' + ''.join(rng.choice('0123456789') for _ in range(rng.randint(0, 6)))
+        if rng.random() < 0.4:
+            body += rng.choice('eE') + rng.choice(['', '+', '-']) + ''.join(rng.choice('0123456789') for _ in range(rng.randint(0, 3)))
+        lex.append(rng.choice(['', '-', '+', ' ']) + body + rng.choice(['', '', ' ', 'x']))
+    from elementpath.helpers import get_double
+    ans = run.driver('C08', ['lex=' + ('.'.join(format(ord(ch), 'x') for ch in t) or '-') for t in lex])
+    for t, a in zip(lex, ans):
+        run.stats.case({'lex': t}, nontrivial=False)
+        run.stats.count('kernel:lex')
+        try:
+            exp = canon_item(get_double(t, '1.1'))
+        except ValueError:
+            exp = 'ERR:FORG0001'
+        if a != exp:
+            run.disagree(Disagreement({'kernel': 'lexDouble', 'text': t}, impl=exp, model=a, what='kernel-lex',
+                                      site='EPV.Seq.lexDouble vs helpers.get_double'))
     dpairs = [(rng.randint(-10 ** rng.randint(1, 25), 10 ** rng.randint(1, 25)), rng.randint(1, 10 ** rng.randint(1, 12)))
               for _ in range(run.scale(800, 8000))]
     ans = run.driver('C08', [f'sig28={n}/{d}' for n, d in dpairs])
@@ -1341,8 +1384,7 @@ def evaluate(run: Run, cases: list[Case], stats=True) -> list[dict]:
             continue
         f = parse_answer(ans)
         model, spec = f['model'], f['spec']
-        rec['model'], rec['spec'], rec['k'], rec['q'] = model, spec, f.get('k', '0'), f.get('q', '0')
-        rec['t'] = f.get('t', '0')
+        rec['model'], rec['spec'], rec['k'], rec['u'] = model, spec, f.get('k', '0'), f.get('u', '0')
         rec['lazy'] = f.get('lazy', spec)
         rec['errs'] = set() if f.get('errs', '_') == '_' else set(f['errs'].split(','))
         t = text(c.expr)
@@ -1368,6 +1410,18 @@ def judge(run: Run, rec: dict, stats=True) -> list[Disagreement]:
             st.count(nt)
         st.count(f'depth:{min(depth(c.expr), 12)}')
         st.count('spec-result:' + (spec if spec.startswith('ERR') else ('empty' if spec == '_' else 'value')))
+    if rec.get('u') == '1':
+        # F08u: trigger `Spec.sumNodeInvalid` (top-level fn:sum over a node that is not a number): F&O
+        # requires FORG0001, the code raises FORG0006 (pinned by the repository's test suite)
+        for pv, impl in rec['impl'].items():
+            if impl != 'ERR:FORG0001':
+                d = c.describe()
+                d['parser'] = pv
+                if stats and impl == 'ERR:FORG0006':
+                    st.count('finding:F08u')
+                out.append(Disagreement(d, impl=impl, model=None, spec='ERR:FORG0001', what='value', site='fn:sum',
+                                        tags=['F08u'] if impl == 'ERR:FORG0006' else []))
+        return out
     if 'UNSUPPORTED' in model or 'UNSUPPORTED' in spec or 'ERR:UNSUPPORTED' in rec.get('errs', ()):
         if stats:
             st.count('outside-modelled-fragment')
@@ -1397,12 +1451,6 @@ def judge(run: Run, rec: dict, stats=True) -> list[Disagreement]:
         what = 'value' if impl != spec else 'model'
         # F08b: trigger predicate `Expr.loopVarInRange` computed by the driver from the expression
         tags = ['F08b'] if rec.get('k') == '1' and impl == 'ERR:XPST0008' else []
-        # F08q: trigger `!Spec.sumAgrees` / `!Spec.avgAgrees` computed by the driver (top-level sum / avg)
-        if rec.get('q') == '1' and impl == model:
-            tags = ['F08q']
-        # F08t: trigger `Spec.hugeIntPromoted` (top-level aggregate), observed as a bare OverflowError
-        if rec.get('t') == '1' and impl == 'ERR:OTHER:OverflowError':
-            tags = ['F08t']
         for tg in tags:
             if stats:
                 st.count('finding:' + tg)
@@ -1592,10 +1640,10 @@ def body(run: Run) -> int:
     run.prove(['EPV.Props.C08'], ['EPV.Spec.FOSeq'])
     rng = run.rng
     try:
-        cases = probe_cases(not run.quick)
+        cases = probe_cases(not run.quick, rng)
         cases += equivalence_cases(rng, not run.quick)
         cases = [c for c in cases if c is not None]
-        cases += random_cases(rng, run.scale(7000, 70000), 6 if run.quick else 7)
+        cases += random_cases(rng, run.scale(6000, 70000), 6 if run.quick else 7)
         run.stats.rule = ('an evaluation = one expression in one dynamic context (item, position, size, variables) '
                           'evaluated by the Lean model, the Lean specification and the real engine under every '
                           'parser class that has the syntax (3.1, 3.0, 2.0); distinct = distinct (expression, '
